@@ -23,7 +23,7 @@ out = ["# Seeded changes and the checks that detect them", "",
        "worktree of /repo; every one was confirmed by `tools/verify_mutant.sh` (compiles, pinned suite unchanged at 215",
        "passed with the same three failures, demo fails with the patch and passes without). None is ever committed to /repo.",
        "The `p*` changes are a third wave (asked for: state that survives a call, two features meeting, failure paths),",
-       "the `q*` changes a fourth (two each for the six properties the third wave left out), the `r*` changes a fifth.",
+       "the `q*` changes a fourth (two each for the six properties the third wave left out), the `r*` changes a fifth, the `s*` changes a sixth (two each for eight properties).",
        "`tools/run_seeded.sh quick` applies each to a scratch copy and runs the check of its property; this table is the",
        "result of that run on the current framework (detected = the check printed VIOLATION and exited 1).", "",
        "| id | needs to manifest | quick check of its property | first failing clauses |", "|---|---|---|---|"]
